@@ -4,6 +4,9 @@ open A07lib
 
 let count_req toks = List.length (List.filter (function TR _ -> true | _ -> false) toks)
 
+let finish obs k pred want n =
+  (pred, verdict (obs = want) ("expected " ^ want), n >= 2)
+
 let predict (c : string) (obs : string) : string * string * bool =
   match split_blank c with
   | "uri" :: p :: fin :: file :: toks ->
@@ -17,9 +20,64 @@ let predict (c : string) (obs : string) : string * string * bool =
       else begin
         let n = count_req toks in
         let k = int_of_string p * n + 1 in
-        let pred = print_run (build url_parse) k (uri_decode url_parse max_token cfg0 (nat_of_int k) fileb) in
-        let want = print_expected (build url_parse) k (uri_entries (List.map fst items) []) in
-        (pred, verdict (obs = want) ("expected " ^ want), n >= 2)
+        let pred = print_run bld_entry k (uri_decode url_parse max_token cfg0 (nat_of_int k) fileb) in
+        let want = print_expected bld_entry k (uri_entries (List.map fst items) []) in
+        let wf = List.for_all (wf_uitem url_parse max_token) items in
+        (pred, verdict (obs = want) ("expected " ^ want), n >= 2 && wf)
+      end
+  | "uripost" :: p :: fin :: file :: toks ->
+      let toks = List.map parse_tok toks in
+      let items = List.map (function
+        | TH (k, v, l, (kl, kt, vl, vt)) -> (PHeader (kl, k, kt, vl, v, vt), lay_of l)
+        | TR (u, t, l, b) -> (PReq (u, t, b), lay_of l)
+        | TB l -> (PBlank, lay_of l)) toks in
+      let fileb = bytes_of_hex file in
+      if render_uripost items (bool_of_field fin) <> fileb then ("render-mismatch", "BAD:render-mismatch", false)
+      else begin
+        let n = count_req toks in
+        let k = int_of_string p * n + 1 in
+        let pred = print_run bld_entry k (uripost_decode url_parse cfg0 (nat_of_int k) fileb) in
+        let want = print_expected bld_entry k (uripost_entries (List.map fst items) []) in
+        finish obs k pred want n
+      end
+  | "raw" :: p :: fin :: file :: toks ->
+      let toks = List.map parse_tok toks in
+      let items = List.map (function
+        | TR (_, t, l, b) -> (RReq (t, b), lay_of l)
+        | TB l -> (RBlank, lay_of l)
+        | TH _ -> failwith "header line in raw case") toks in
+      let fileb = bytes_of_hex file in
+      if render_raw items (bool_of_field fin) <> fileb then ("render-mismatch", "BAD:render-mismatch", false)
+      else begin
+        let n = count_req toks in
+        let k = int_of_string p * n + 1 in
+        let pred = print_run bld_raw k (raw_decode cfg0 (nat_of_int k) fileb) in
+        let want = print_expected bld_raw k (raw_entries (List.map fst items)) in
+        finish obs k pred want n
+      end
+  | "json" :: p :: arr :: file :: toks ->
+      let ents = List.map parse_entity toks in
+      let fileb = bytes_of_hex file in
+      let n = List.length ents in
+      let k = int_of_string p * n + 1 in
+      let is_arr = bool_of_field arr in
+      (* the JSON text is an oracle: it must decode to the entities of the case *)
+      let oracle_ok = (match json_file fileb with
+        | JArr (true, t) -> is_arr && t = toks
+        | JStream (true, t) -> (not is_arr) && t = toks
+        | JMiss -> true
+        | _ -> false) in
+      if not oracle_ok then ("json-oracle-mismatch", "BAD:json-oracle-mismatch", false)
+      else begin
+        let pred =
+          if is_arr then
+            (match json_array_decode url_parse cfg0 (nat_of_int k) ents with
+             | None -> "newerr"
+             | Some rs -> print_run bld_entry k rs)
+          else print_run bld_entry k (json_stream_decode url_parse cfg0 (nat_of_int k) ents JEof) in
+        let es = List.filter_map (fun d -> match entity_entry url_parse d with Inl e -> Some e | Inr _ -> None) ents in
+        let want = if List.length es <> n then "entity-rejected" else print_expected bld_entry k es in
+        finish obs k pred want n
       end
   | _ -> ("unknown-case", "BAD:unknown-case", false)
 
